@@ -158,6 +158,7 @@ void check_l0(const Json& plan, const std::string& side, SnapFn snap)
         if (bytes.empty()) continue;
         std::vector<size_t> cuts = cuts_of(m, bytes.size());
         Outcome a = feed_message(reused, bytes, cuts, snap);
+        r.fault("segmentation", static_cast<i64>(cuts.size()) + 1);
         Parser fresh(max_size);
         Outcome b = feed_message(fresh, bytes, cuts, snap);
         std::string desc = m.str("desc", "?");
